@@ -389,7 +389,7 @@ def e2_main(tier: str, out: str) -> int:
     for name, target, cons in Q:
         rec = ses.query(name, *cons)
         so = rec.pop('_solver')
-        if tier == 'thorough':
+        if tier == 'thorough' and not name.startswith('named:'):
             rec['smt2'] = _smt2(so)
         if rec['result'] == 'sat':
             ok = getattr(me, target)(rec['witness'])
@@ -457,8 +457,8 @@ def _cvc5_crosscheck(queries):
         path = os.path.join(work, 'q%d.smt2' % i)
         open(path, 'w').write(q['smt2'])
         try:
-            p = subprocess.run([exe, '--strings-exp', '--tlimit=60000', path],
-                               capture_output=True, text=True, timeout=90)
+            p = subprocess.run([exe, '--strings-exp', '--tlimit=10000', path],
+                               capture_output=True, text=True, timeout=15)
             out = p.stdout.strip().splitlines()
             ans = out[0] if out else ''
         except subprocess.TimeoutExpired:
